@@ -20,18 +20,18 @@ import (
 )
 
 type genStats struct {
-	Evaluations int            `json:"evaluations"`
-	Distinct    int            `json:"distinct"`
-	Nontrivial  int            `json:"distinct_nontrivial"`
-	Panics      int            `json:"panics"`
-	Events      int            `json:"events"`
-	Samples     []string       `json:"samples"`
-	Extra       map[string]int `json:"extra"`
-	seen        map[uint64]struct{}
+	Evaluations int             `json:"evaluations"`
+	Distinct    int             `json:"distinct"`
+	Nontrivial  int             `json:"distinct_nontrivial"`
+	Panics      int             `json:"panics"`
+	Events      int             `json:"events"`
+	Samples     []string        `json:"samples"`
+	Extra       map[string]int  `json:"extra"`
+	seen        map[uint64]bool // value: non-trivial
 }
 
 func newStats() *genStats {
-	return &genStats{seen: map[uint64]struct{}{}, Extra: map[string]int{}}
+	return &genStats{seen: map[uint64]bool{}, Extra: map[string]int{}}
 }
 
 // note records one evaluated input; non-trivial = distinct and longer than one byte.
@@ -41,7 +41,7 @@ func (s *genStats) note(data []byte, panicked bool) {
 	h.Write(data)
 	k := h.Sum64()
 	if _, ok := s.seen[k]; !ok {
-		s.seen[k] = struct{}{}
+		s.seen[k] = len(data) > 1
 		s.Distinct++
 		if len(data) > 1 {
 			s.Nontrivial++
@@ -53,6 +53,24 @@ func (s *genStats) note(data []byte, panicked bool) {
 	progress()
 }
 
+// merge adds the counts of another (per-worker) statistics object; distinct counts are exact.
+func (s *genStats) merge(o *genStats) {
+	s.Evaluations += o.Evaluations
+	s.Panics += o.Panics
+	for k, nt := range o.seen {
+		if _, ok := s.seen[k]; !ok {
+			s.seen[k] = nt
+			s.Distinct++
+			if nt {
+				s.Nontrivial++
+			}
+		}
+	}
+	for k, v := range o.Extra {
+		s.Extra[k] += v
+	}
+}
+
 // noteKey is note for cases identified by something other than the input bytes.
 func (s *genStats) noteKey(key string, nontrivial bool) {
 	s.Evaluations++
@@ -60,7 +78,7 @@ func (s *genStats) noteKey(key string, nontrivial bool) {
 	h.Write([]byte(key))
 	k := h.Sum64()
 	if _, ok := s.seen[k]; !ok {
-		s.seen[k] = struct{}{}
+		s.seen[k] = nontrivial
 		s.Distinct++
 		if nontrivial {
 			s.Nontrivial++
@@ -271,6 +289,8 @@ func genParse(c *genCtx) error {
 		}
 		setCurrent("parse sweep")
 		genSweep(ss, c.sw, c.tier, c.rng, c.st)
+		setCurrent("parse depth contexts")
+		genDepthContexts(ss, c.sw, c.tier, c.st)
 	}
 	po := newParseObserver()
 	var j jb
@@ -371,6 +391,9 @@ func replay(args []string) {
 		ev = inner
 	}
 	op, _ := ev["op"].(string)
+	if op == "panic" {
+		op, _ = ev["orig"].(string)
+	}
 	fn, ok := replayers[op]
 	if !ok {
 		fmt.Fprintln(os.Stderr, "replay: no replayer for op", op)
